@@ -629,3 +629,151 @@ Proof.
   - by destruct (set_output_g _ _ _).
   - pose proof (set_output_inv (c_g C) ns b) as (Hs & Hd & _). destruct (set_output_g _ _ _) as [g oc]. simpl in *. intros m t _. by apply sub_dom_ty.
 Qed.
+(* ================================================================ add_subcircuit keeps the wiring legal *)
+Lemma alter_retype_buf_wiredE c n : (ty c n = Some Input ∨ ty c n = Some Buf ∨ ty c n = None) → wiredE c → wiredE (alter (retype Buf) n c).
+Proof.
+  intros Hty (Hc & Hn & He).
+  assert (HL : ∀ m, alter (retype Buf) n c !! m = if decide (m = n) then retype Buf <$> c !! m else c !! m).
+  { intros m. destruct (decide (m = n)) as [->|]; [by rewrite lookup_alter|by rewrite lookup_alter_ne]. }
+  assert (HL' : ∀ m j', alter (retype Buf) n c !! m = Some j' → ∃ j, c !! m = Some j ∧ n_fi j' = n_fi j ∧ (n_ty j' = n_ty j ∨ (m = n ∧ n_ty j' = Buf))).
+  { intros m j'. rewrite HL. destruct (decide (m = n)) as [->|]; [|eauto].
+    destruct (c !! n) as [j|]; [|done]. intros [= <-]. exists j. simpl. eauto. }
+  assert (Hdom : ∀ m, m ∈ dom (alter (retype Buf) n c) ↔ m ∈ dom c).
+  { intros m. rewrite !elem_of_dom, HL. destruct (decide (m = n)); [|done]. destruct (c !! m); simpl; split; intros [? ?]; eauto; done. }
+  assert (Hty' : ∀ f t, ty (alter (retype Buf) n c) f = Some t → t ≠ Buf → ty c f = Some t).
+  { intros f t (j' & Hj' & <-)%ty_Some Hne. destruct (HL' _ _ Hj') as (j & Hj & _ & [Ht|[_ Ht]]); [|done]. apply ty_Some. eauto. }
+  split; [|split].
+  - intros m j' f Hm Hf. destruct (HL' _ _ Hm) as (j & Hj & Hfi & _). apply Hdom. rewrite Hfi in Hf. eauto.
+  - intros m j' Hm. destruct (HL' _ _ Hm) as (j & Hj & Hfi & Ht). destruct (Hn _ _ Hj) as (H1 & H2 & H3). rewrite Hfi.
+    destruct Ht as [->|[-> ->]]; [done|]. split; [set_solver|]. split; [intros Hx; set_solver|]. intros _.
+    assert (Htn : ty c n = Some (n_ty j)) by (unfold ty; by rewrite Hj).
+    destruct Hty as [Hi|[Hb|Hno]]; rewrite Htn in *; [injection Hi as Hi|injection Hb as Hb|done].
+    + rewrite H2; [rewrite size_empty; lia|rewrite Hi; set_solver].
+    + apply H3. rewrite Hb. set_solver.
+  - intros m j' f Hm Hf. destruct (HL' _ _ Hm) as (j & Hj & Hfi & Ht). rewrite Hfi in Hf.
+    destruct (He _ _ _ Hj Hf) as [H1 H2]. split.
+    + intros E. apply Hty' in E; done.
+    + intros E. apply Hty' in E; [|done]. destruct (H2 E) as [Hb Hu]. split; [destruct Ht as [->|[_ ->]]; done|].
+      intros m' j'' Hm' Hf'. destruct (HL' _ _ Hm') as (j0 & Hj0 & Hfi0 & _). rewrite Hfi0 in Hf'. eauto.
+Qed.
+
+Lemma size_set_map_le_1 (ρ : string → string) `{!Inj (=) (=) ρ} (X : gset string) : size X ≤ 1 → size (set_map ρ X : gset string) ≤ 1.
+Proof.
+  rewrite !size_le_1_unique. intros H x y (a & -> & Ha)%elem_of_map (b & -> & Hb)%elem_of_map. f_equal. eauto.
+Qed.
+
+Lemma splice_wiredE c s (ρ : string → string) `{!Inj (=) (=) ρ} :
+  (∀ n, n ∈ dom s → ρ n ∉ dom c) → wiredE c → wiredE s → wiredE (update_g c (rename_g ρ s)).
+Proof.
+  intros Hdisj (Hc & Hn & He) (Hcs & Hns & Hes). set (g := update_g c (rename_g ρ s)).
+  assert (R1 : ∀ n, rename_g ρ s !! (ρ n) = upd_fi (set_map ρ) <$> s !! n).
+  { intros n. unfold rename_g. by rewrite lookup_kmap, lookup_fmap. }
+  assert (R2 : ∀ m, m ∈ dom c → rename_g ρ s !! m = None).
+  { intros m Hm. unfold rename_g. apply lookup_kmap_None; [apply _|]. intros n ->. rewrite lookup_fmap.
+    destruct (s !! n) eqn:E; [|done]. exfalso. eapply Hdisj; [|exact Hm]. apply elem_of_dom; eauto. }
+  assert (R3 : ∀ m j, rename_g ρ s !! m = Some j → ∃ n i, m = ρ n ∧ s !! n = Some i ∧ j = upd_fi (set_map ρ) i).
+  { intros m j. unfold rename_g. intros (n & -> & Hn')%lookup_kmap_Some; [|apply _]. rewrite lookup_fmap in Hn'.
+    destruct (s !! n) as [i|] eqn:E; [|done]. injection Hn' as <-. eauto. }
+  assert (G1 : ∀ m, m ∈ dom c → g !! m = c !! m).
+  { intros m Hm. unfold g, update_g. rewrite lookup_union_with, (R2 m Hm). apply elem_of_dom in Hm as [x ->]. done. }
+  assert (G2 : ∀ n, n ∈ dom s → g !! (ρ n) = upd_fi (set_map ρ) <$> s !! n).
+  { intros n Hn'. unfold g, update_g. rewrite lookup_union_with, R1. rewrite (not_elem_of_dom_1 c (ρ n)) by eauto.
+    apply elem_of_dom in Hn' as [x ->]. done. }
+  assert (G3 : ∀ m j, g !! m = Some j → (c !! m = Some j) ∨ (∃ n i, m = ρ n ∧ s !! n = Some i ∧ j = upd_fi (set_map ρ) i)).
+  { intros m j. unfold g, update_g. rewrite lookup_union_with. destruct (c !! m) as [x|] eqn:Ec.
+    - rewrite R2 by (apply elem_of_dom; eauto). simpl. intros [= <-]. by left.
+    - destruct (rename_g ρ s !! m) as [y|] eqn:Er; simpl; [|done]. intros [= <-]. right. by apply R3. }
+  assert (T1 : ∀ f, f ∈ dom c → ty g f = ty c f) by (intros f Hf; unfold ty; by rewrite G1).
+  assert (T2 : ∀ f, f ∈ dom s → ty g (ρ f) = ty s f).
+  { intros f Hf. unfold ty. rewrite G2 by done. by destruct (s !! f). }
+  split; [|split].
+  - intros m j f Hm Hf. destruct (G3 _ _ Hm) as [Hcm|(n & i & -> & Hi & ->)].
+    + assert (f ∈ dom c) by eauto. apply elem_of_dom. rewrite G1 by done. by apply elem_of_dom.
+    + simpl in Hf. apply elem_of_map in Hf as (f0 & -> & Hf0). assert (f0 ∈ dom s) by eauto.
+      apply elem_of_dom. rewrite G2 by done. apply elem_of_dom in H as [x ->]. eauto.
+  - intros m j Hm. destruct (G3 _ _ Hm) as [Hcm|(n & i & -> & Hi & ->)]; [eauto|].
+    destruct (Hns _ _ Hi) as (H1 & H2 & H3). simpl. split; [done|]. split.
+    + intros E. rewrite (H2 E). apply set_map_empty.
+    + intros E. apply size_set_map_le_1; [done|]. by apply H3.
+  - intros m j f Hm Hf. destruct (G3 _ _ Hm) as [Hcm|(n & i & -> & Hi & ->)].
+    + assert (Hfd : f ∈ dom c) by eauto. rewrite T1 by done. destruct (He _ _ _ Hcm Hf) as [H1 H2]. split; [done|].
+      intros E. destruct (H2 E) as [Hb Hu]. split; [done|]. intros m' j' Hm' Hf'.
+      destruct (G3 _ _ Hm') as [Hcm'|(n' & i' & -> & Hi' & ->)]; [eauto|exfalso].
+      simpl in Hf'. apply elem_of_map in Hf' as (f0 & -> & Hf0). eapply Hdisj; [|exact Hfd]. eauto.
+    + simpl in Hf. apply elem_of_map in Hf as (f0 & -> & Hf0). assert (Hfd : f0 ∈ dom s) by eauto.
+      rewrite T2 by done. destruct (Hes _ _ _ Hi Hf0) as [H1 H2]. split; [done|].
+      intros E. destruct (H2 E) as [Hb Hu]. split; [done|]. intros m' j' Hm' Hf'.
+      destruct (G3 _ _ Hm') as [Hcm'|(n' & i' & -> & Hi' & ->)].
+      * exfalso. eapply (Hdisj f0 Hfd). eauto.
+      * simpl in Hf'. apply elem_of_map in Hf' as (f1 & Heq & Hf1). apply (inj ρ) in Heq as <-. f_equal. eauto.
+Qed.
+
+Lemma splice_ty c s (ρ : string → string) `{!Inj (=) (=) ρ} n :
+  (∀ n, n ∈ dom s → ρ n ∉ dom c) → n ∈ dom s → ty (update_g c (rename_g ρ s)) (ρ n) = ty s n.
+Proof.
+  intros Hdisj Hn. unfold ty, update_g, rename_g. rewrite lookup_union_with, lookup_kmap, lookup_fmap.
+  rewrite (not_elem_of_dom_1 c (ρ n)) by eauto. apply elem_of_dom in Hn as [x ->]. done. apply _.
+Qed.
+
+Lemma unmark_sub_dom c n : sub (alter unmark n c) c ∧ dom (alter unmark n c) = dom c.
+Proof.
+  split.
+  - intros m i'. destruct (decide (m = n)) as [->|]; [rewrite lookup_alter|rewrite lookup_alter_ne by done; eauto].
+    destruct (c !! n) as [i|]; [|done]. intros [= <-]. exists i. done.
+  - apply set_eq. intros m. rewrite !elem_of_dom, <- !not_eq_None_Some.
+    destruct (decide (m = n)) as [->|]; [rewrite lookup_alter_None|rewrite lookup_alter_ne]; done.
+Qed.
+Lemma alter_retype_ty c n m : ty (alter (retype Buf) n c) m = if decide (m = n) then (λ _, Buf) <$> ty c m else ty c m.
+Proof.
+  unfold ty. destruct (decide (m = n)) as [->|]; [rewrite lookup_alter|by rewrite lookup_alter_ne]. by destruct (c !! n).
+Qed.
+
+Lemma foldr_inv {A B} (P : B → Prop) (f : A → B → B) l b : P b → (∀ x a, x ∈ l → P a → P (f x a)) → P (foldr f b l).
+Proof. intros Hb Hf. induction l as [|x l IH]; simpl; [done|]. apply Hf; [set_solver|]. apply IH. intros y a Hy. apply Hf. set_solver. Qed.
+
+Lemma add_subcircuit_wired strip C SC name conns : tables_ok → Inv C → Inv SC → Inv (add_subcircuit_gen strip C SC name conns).1.
+Proof.
+  intros HT Hw Hs. unfold Inv in *. unfold add_subcircuit_gen.
+  destruct (existsb _ (elements (dom (c_bbs SC)))); [done|].
+  destruct (existsb _ (elements (dom (c_g SC)))) eqn:Eov; [done|].
+  destruct (existsb _ conns); [done|]. cbv zeta.
+  assert (Hdisj : ∀ n, n ∈ dom (c_g SC) → pre name n ∉ dom (c_g C)).
+  { intros n Hn. assert (Hf : negb (existsb (λ n, bool_decide (pre name n ∈ dom (c_g C))) (elements (dom (c_g SC)))) = true) by (by rewrite Eov).
+    pose proof (negb_existsb_false _ _ Hf n) as H. simpl in H. specialize (H ltac:(by apply elem_of_elements)). by apply bool_decide_eq_false in H. }
+  set (g0 := update_g (c_g C) (rename_g (pre name) (c_g SC))).
+  assert (H0 : wiredE g0) by (apply splice_wiredE; [apply _|done|by apply wired_iff|by apply wired_iff]).
+  set (g1 := if strip then set_fold _ g0 (inputs (c_g SC)) else g0).
+  assert (H1 : wiredE g1).
+  { unfold g1. destruct strip; [|done].
+    unfold set_fold. simpl.
+    apply (foldr_inv (λ g, wiredE g ∧ ∀ m, ty g m = ty g0 m ∨ ty g m = Some Buf)); [split; [done|by left]|].
+    intros x g Hx%elem_of_elements [Hg Ht]. split.
+    - apply alter_retype_buf_wiredE; [|done]. destruct (Ht (pre name x)) as [E|E]; [|tauto]. rewrite E.
+      left. unfold g0. rewrite splice_ty; [|apply _|done|]; apply elem_of_inputs in Hx as (i & Hi & Hty); [unfold ty; by rewrite Hi, <- Hty|apply elem_of_dom; eauto].
+    - intros m. rewrite alter_retype_ty. destruct (decide (m = pre name x)); [|done].
+      destruct (Ht m) as [E|E]; rewrite E; [destruct (ty g0 m); simpl; eauto|by right]. }
+  set (g2 := if strip then set_fold _ g1 (outputs (c_g SC)) else g1).
+  assert (H2 : wiredE g2).
+  { unfold g2. destruct strip; [|done]. apply wired_iff.
+    apply (set_fold_ind_L (λ g _, wired g)); [by apply wired_iff|].
+    intros x X g Hx Hg. destruct (unmark_sub_dom g (pre name x)). by eapply wired_sub_dom. }
+  set (r := foldl _ (g2, Done) conns).
+  assert (Hr : wired r.1).
+  { apply (foldl_inv (λ st : circuit * outcome, wired st.1)); [by apply wired_iff|].
+    intros [g o] [k vs] Hg. simpl in *. destruct o; [|done]. destruct (bool_decide (k ∈ inputs (c_g SC))); by apply connect_wired. }
+  destruct r as [gr o]. simpl in *. destruct o as [|[]]; simpl; try done. by apply remove_wired.
+Qed.
+
+(* every operation except fill_blackbox; a subcircuit argument must itself be legally wired *)
+Definition sc_inv (o : op) : Prop := match o with OAddSubcircuit SC _ _ | OFillBlackbox _ SC => Inv SC | _ => True end.
+Definition not_fill (o : op) : bool := match o with OFillBlackbox _ _ => false | _ => true end.
+Lemma step_inv_nofill C o : tables_ok → not_fill o = true → sc_inv o → Inv C → Inv (step C o).1.
+Proof.
+  intros HT Hnf Hsc Hw. destruct o; try discriminate; try (by apply step_inv_core).
+  simpl. by apply add_subcircuit_wired.
+Qed.
+Lemma run_inv_nofill C ops : tables_ok → Forall (λ o, not_fill o = true ∧ sc_inv o) ops → Inv C → Inv (run C ops).
+Proof.
+  intros HT Hops. revert C. unfold run. induction Hops as [|o ops [Ho Hs] _ IH]; intros C Hw; simpl; [done|].
+  apply IH. by apply step_inv_nofill.
+Qed.
